@@ -17,19 +17,19 @@ package main
 // Part 2: the decoders whose models other properties own are c08.dec entries too: palette (C12), section / chunk /
 // blockentity (C13), chat.json (C17 + the String frame), nbt (typed decoding through pk.NBTField: C02/C03), registry
 // (Registry[E].ReadFrom for RawMessage and the three typed registries).  Their observations are printed with the owning
-// harnesses' functions (c12ShowAll, c13DigLongs, c13EntObs, c17Tree, c17PrintMsg, c02Describe, c02ShowStr).  Only
-// chat.nbt (the NBT form of chat.Message: no Lean model yet) is still c08.raw, together with the long section / chunk
-// inputs that the quick tier keeps away from the quadratic-time model (c08SampleOp).
+// harnesses' functions (c12ShowAll, c13DigLongs, c13EntObs, c17Tree, c17PrintMsg, c17PrintType, c02Describe, c02ShowStr).
+// chat.nbt and chat.type (the NBT form of chat.Message, the chat-type header: C17 stage 2, Model/ChatNBT) are c08.dec as
+// well.  c08.raw is left for the long section / chunk inputs that the cost-proportional sampling keeps away from the
+// quadratic-time model (c08SampleOp).
 //
 // Line formats
 //   c08.dec <decoder> <params> <hex> => ok [n=<returned count> used=<bytes consumed>] [v=…] | err [used=<k>] | panic | hang
 //       modelled decoders: the driver runs the Lean model and the spec oracle (never panic/hang; a negative
 //       or too large length prefix => err)
 //   c08.raw <decoder> <params> <hex> => ok used=<k> | err used=<k> | panic | hang
-//       oracle-only decoders (no Lean model yet: chat.nbt) and the part of the chunk stream that is not run through
-//       the model (long inputs: the chunk model costs time quadratic in the input length, see c08ChunkOp): the driver
-//       applies only "never panic / never hang" and echoes the observation; listed in props/C08.json under
-//       oracle_only_decoders
+//       oracle-only lines: the part of the section / chunk stream that is not run through the model (long inputs: the
+//       model costs time quadratic in the input length, see c08SampleOp): the driver applies only "never panic / never
+//       hang" and echoes the observation; listed in props/C08.json under oracle_only_decoders
 // and the lines of the decoders that other properties own (frame.unpack: C07, cmd.exec: CMD, dynbt.dec: DYNBT).
 //
 // Declared lengths are capped (c08Cap*) so that the real code never allocates more than ~64 MiB: memory
@@ -969,8 +969,8 @@ func c08ValidTags(c *Ctx, params string, n int) [][]byte {
 
 // ---------------------------------------------------------------------------------------------------------
 // decoders whose models belong to other properties (C12 palette container, C13 section / chunk / block entity,
-// C17 JSON text component, C02/C03 typed nbt and NBTField, registries over them): c08.dec, printed with the owning
-// harness's printing functions; and the one oracle-only decoder left (chat.nbt: c08.raw)
+// C17 JSON / NBT text components and the chat-type header, C02/C03 typed nbt and NBTField, registries over them):
+// c08.dec, printed with the owning harness's printing functions
 // ---------------------------------------------------------------------------------------------------------
 
 func c08RawObs(n int64, err error, used int) string {
@@ -1149,7 +1149,7 @@ func c08ChunkObs(ch *level.Chunk) string {
 }
 
 // c08SampleOp: the stream model (a list of bytes) makes every read cost time proportional to what is left, so the
-// section and chunk models cost time quadratic in the input length (about 5 ms for a 4 KB section, 60 ms for a 16 KB
+// palette-container, section and chunk models cost time quadratic in the input length (about 5 ms for a 4 KB section, 60 ms for a 16 KB
 // chunk, seconds for a 24-section chunk).  Inputs up to c08ModelMax bytes are all compared with the model; a longer one
 // with probability inversely proportional to its cost (len/1000)^2: one in cost/3 in the quick tier, one in cost/40 in
 // the thorough tier (so a 2.5 KB chunk always, a 4 KB section one in 5 / always, a 16 KB chunk one in 85 / 6), chosen by
@@ -1297,7 +1297,46 @@ func c08RunChatNBT(_ string, in []byte) string {
 	br := bytes.NewReader(in)
 	var m chat.Message
 	n, err := m.ReadFrom(br)
-	return c08RawObs(n, err, len(in)-br.Len())
+	return c08DecObs(n, err, len(in)-br.Len(), func() string { return c17PrintMsg(m) })
+}
+
+// chat.type: the chat-type header of a player chat packet: (*chat.Type).ReadFrom = VarInt id, the sender name (NBT
+// text component), a Boolean, and the target name (NBT text component) iff the Boolean is set
+func c08RunChatType(_ string, in []byte) string {
+	br := bytes.NewReader(in)
+	var t chat.Type
+	n, err := t.ReadFrom(br)
+	return c08DecObs(n, err, len(in)-br.Len(), func() string { return c17PrintType(&t) })
+}
+
+func c08WalkChatType(_ string, in []byte) *c08Cur {
+	w := newCur(in)
+	w.varN(5)
+	w.nbtNet()
+	if w.u8() != 0 {
+		w.nbtNet()
+	}
+	return w
+}
+
+func c08ValidChatType(c *Ctx, _ string, n int) [][]byte {
+	var out [][]byte
+	for i := 0; i < n; i++ {
+		in := leb(uint64(uint32(int32(c.R.Intn(300) - 20))))
+		in = append(in, c08ChatDoc(c, 1)...)
+		switch c.R.Intn(5) {
+		case 0:
+			in = append(in, 0)
+		case 1:
+			in = append(in, byte(2+c.R.Intn(250))) // a Boolean that is neither 0 nor 1
+			in = append(in, c08ChatDoc(c, 1)...)
+		default:
+			in = append(in, 1)
+			in = append(in, c08ChatDoc(c, 1)...)
+		}
+		out = append(out, in)
+	}
+	return out
 }
 
 func c08WalkNBT(_ string, in []byte) *c08Cur {
@@ -1688,7 +1727,12 @@ func c08InitRegistry() {
 	c08Register(&c08Decoder{name: "cmd", other: c08CMD})
 	c08Register(&c08Decoder{name: "dynbt", other: c08DYNBT})
 
-	// ---- decoders whose models other properties own (C12, C13, C17, C02/C03), and the oracle-only rest ----
+	// ---- decoders whose models other properties own (C12, C13, C17, C02/C03) ----
+	// Exhaustive small inputs in the quick tier: every two-byte input only where two bytes can hold a complete value or
+	// reach a second field (chat.json, nbt into `any`, registry); for the decoders that begin with fixed-width fields or
+	// need at least three bytes for anything but "the input ends" (palette, section, chunk, blockentity, chat.nbt,
+	// chat.type) every input of at most ONE byte — all 65536 two-byte inputs give the same truncation error there.  The
+	// thorough tier enumerates two bytes and a strided cube of three for all of them.
 	ext := func(op, name string, params func(*Ctx) []string, valid func(*Ctx, string, int) [][]byte, walk func(string, []byte) *c08Cur,
 		run func(string, []byte) string, exhT int, nv, nr int) *c08Decoder {
 		d := &c08Decoder{name: name, op: op, params: params, valid: valid, walk: walk, run: run,
@@ -1698,20 +1742,26 @@ func c08InitRegistry() {
 	}
 	ext("c08.dec", "palette", func(*Ctx) []string {
 		return []string{fmt.Sprintf("states/%d", c12GB("blocks")), fmt.Sprintf("biomes/%d", c12GB("biomes"))}
-	}, c08ValidPalette, c08WalkPalette, c08RunPalette, 3, 12, 1500)
+	}, c08ValidPalette, c08WalkPalette, c08RunPalette, 3, 8, 1500)
+	palDec := c08ByName["palette"]
+	palDec.opFor, palDec.exhQuick = c08SampleOp, 1
 	gbs := fmt.Sprintf("%d/%d", c12GB("blocks"), c12GB("biomes"))
-	ext("c08.dec", "section", one(gbs), c08ValidSection, c08WalkSection, c08RunSection, 2, 12, 1500).opFor = c08SampleOp
-	ext("c08.dec", "chunk", func(c *Ctx) []string {
+	secDec := ext("c08.dec", "section", one(gbs), c08ValidSection, c08WalkSection, c08RunSection, 2, 8, 1500)
+	secDec.opFor, secDec.exhQuick = c08SampleOp, 1
+	chunkDec := ext("c08.dec", "chunk", func(c *Ctx) []string {
 		if c.Thorough() {
 			return []string{"1/" + gbs, "2/" + gbs, "3/" + gbs, "24/" + gbs}
 		}
 		return []string{"1/" + gbs, "2/" + gbs, "3/" + gbs}
-	}, c08ValidChunk, c08WalkChunk, c08RunChunk, 2, 4, 600).opFor = c08SampleOp
-	ext("c08.dec", "blockentity", one("-"), c08ValidBlockEntity, c08WalkBlockEntity, c08RunBlockEntity, 2, 40, 1500)
-	ext("c08.raw", "chat.nbt", one("-"), c08ValidChatNBT, c08WalkNBT, c08RunChatNBT, 2, 80, 3000)
+	}, c08ValidChunk, c08WalkChunk, c08RunChunk, 2, 4, 600)
+	chunkDec.opFor = c08SampleOp
+	chunkDec.exhFirst, chunkDec.exhQuick = 1, 1
+	ext("c08.dec", "blockentity", one("-"), c08ValidBlockEntity, c08WalkBlockEntity, c08RunBlockEntity, 2, 40, 1500).exhQuick = 1
+	ext("c08.dec", "chat.nbt", one("-"), c08ValidChatNBT, c08WalkNBT, c08RunChatNBT, 2, 80, 3000).exhQuick = 1
+	ext("c08.dec", "chat.type", one("-"), c08ValidChatType, c08WalkChatType, c08RunChatType, 2, 40, 1500).exhQuick = 1
 	ext("c08.dec", "chat.json", one("-"), c08ValidChatJSON, c08WalkString, c08RunChatJSON, 2, 30, 1500)
-	ext("c08.dec", "nbt", c08NbtParams, c08ValidNBTStruct, c08WalkNBT, c08RunNBTStruct, 2, 60, 2000)
-	ext("c08.dec", "registry", c08RegParams, c08ValidRegistry, c08WalkRegistry, c08RunRegistryRaw, 2, 40, 1000).exhFirst = 1
+	ext("c08.dec", "nbt", c08NbtParams, c08ValidNBTStruct, c08WalkNBT, c08RunNBTStruct, 2, 40, 2000).exhFirst = 1
+	ext("c08.dec", "registry", c08RegParams, c08ValidRegistry, c08WalkRegistry, c08RunRegistryRaw, 2, 28, 1000).exhFirst = 1
 }
 
 // ---- the decoders other properties own ----
